@@ -8,6 +8,9 @@ R1 tainted extents need a dominating size guard: on every path of mtbl_reader_in
    bounded by a constant, which is re-derived from the decoder's loop.
 R2 block_init maps every inconsistent restart count to size 0; block_iter_init refuses
    size < 8 through a NORETURN edge.
+R3 width agreement (rules/widths.py): the file length, the index block offset/length and the
+   cached data block offset are 64 bits wide and are never converted to fewer bits on the way
+   to a comparison or a pointer computation.
 """
 import re
 from .common import *
@@ -59,6 +62,11 @@ def varint_bound(prog):
 def run(ctx, res):
     prog, cg = ctx.prog, ctx.cg
     T = ctx.spec("t_extent")
+    # ---- R3 width agreement: a truncated offset passes the size guard and addresses something else
+    from . import widths
+    res.floor("C19.R3", 4)
+    widths.width_flow(ctx, res, "C19.R3", "C19")
+    widths.selftest(ctx, "C19")
     vb = varint_bound(prog)
     want = {r["what"].split()[-1]: r["bound"] for r in T["bounded_not_tainted"]}
     res.check(vb.get("mtbl_varint_decode64") == 10 and vb.get("mtbl_varint_decode32") == 5, "C19.R1", "_varint_decode:bound",
